@@ -51,7 +51,7 @@ impl RawOp {
 	}
 }
 
-#[derive(Clone, Copy, PartialEq, Eq, Hash, Debug)]
+#[derive(Clone, Copy, PartialEq, Eq, Hash, Debug, serde::Serialize, serde::Deserialize)]
 pub enum Policy {
 	/// reader-preferring: a shared acquisition is grantable whenever no exclusive holder exists
 	RP,
@@ -59,7 +59,7 @@ pub enum Policy {
 	WP,
 }
 
-#[derive(Clone, Copy, PartialEq, Eq, Hash, Debug)]
+#[derive(Clone, Copy, PartialEq, Eq, Hash, Debug, serde::Serialize, serde::Deserialize)]
 pub enum Gran {
 	/// every raw operation is a scheduling point
 	RawOp,
@@ -181,7 +181,7 @@ pub struct ThreadSt {
 	pub points: u32,
 }
 
-#[derive(Clone, Debug)]
+#[derive(Clone, Debug, serde::Serialize, serde::Deserialize)]
 pub enum FaultSpec {
 	/// panic instead of performing global raw op number `index` (0-based, counted over the execution once armed)
 	OneShot { index: usize },
@@ -213,11 +213,12 @@ pub struct Inner {
 	pub env_steps: u32,
 	pub blocked_seen: bool,
 	pub machinery_error: Option<String>,
+	pub decider: Option<Decider>,
 }
 
 pub struct Exec {
 	pub inner: StdMutex<Inner>,
-	pub cv: Condvar,
+	pub cv_thr: Vec<Condvar>,
 }
 
 thread_local! {
@@ -464,6 +465,15 @@ pub fn what_key(what: &str) -> String {
 	what.split('#').next().unwrap_or("").trim().to_string()
 }
 
+/// What the scheduler decides at a quiescent point.
+pub enum Decision {
+	Run(usize, u16),
+	Stop,
+}
+/// The scheduling policy of an execution; called (under the execution lock) by whichever
+/// thread made the execution quiescent.
+pub type Decider = Box<dyn FnMut(&mut Inner) -> Decision + Send>;
+
 impl Exec {
 	pub fn new(gran: Gran, policy: Policy, nthreads: usize, is_rw: Vec<bool>) -> Arc<Exec> {
 		let nlocks = is_rw.len();
@@ -498,8 +508,9 @@ impl Exec {
 				env_steps: 0,
 				blocked_seen: false,
 				machinery_error: None,
+				decider: None,
 			}),
-			cv: Condvar::new(),
+			cv_thr: (0..MAXT).map(|_| Condvar::new()).collect(),
 		})
 	}
 
@@ -510,78 +521,92 @@ impl Exec {
 		}
 	}
 
-	// ---------------- controller side ----------------
+	/// Install the scheduling policy. The closure may borrow data of the caller: the caller
+	/// guarantees (by waiting for all logical threads) that it is dropped before that data.
+	pub fn set_decider<'a>(&self, d: Box<dyn FnMut(&mut Inner) -> Decision + Send + 'a>) {
+		let d: Decider = unsafe { std::mem::transmute(d) };
+		self.lock().decider = Some(d);
+	}
+	pub fn clear_decider(&self) {
+		self.lock().decider = None;
+	}
 
-	/// Wait until no thread is running (all parked / finished). Returns false on watchdog timeout.
-	pub fn wait_quiescent(&self) -> bool {
-		let mut g = self.lock();
-		let mut waited = 0;
-		loop {
-			let busy = g.turn.is_some() || g.threads[..g.nthreads].iter().any(|t| t.status == Status::NotStarted || t.status == Status::Running);
-			if !busy {
-				return true;
+	fn quiescent(g: &Inner) -> bool {
+		g.turn.is_none() && !g.threads[..g.nthreads].iter().any(|t| t.status == Status::NotStarted || t.status == Status::Running)
+	}
+
+	/// Grant thread `tid` its pending point (effects applied here).
+	fn grant(g: &mut Inner, tid: usize, choice: u16) {
+		if !g.thread_enabled(tid) {
+			g.machinery_error = Some(format!("scheduler chose disabled thread T{}", tid));
+			g.abort = true;
+			return;
+		}
+		if let Some(l) = g.last {
+			if l != tid && g.thread_enabled(l) {
+				g.preemptions += 1;
 			}
-			let (ng, to) = match self.cv.wait_timeout(g, Duration::from_millis(1000)) {
-				Ok(x) => x,
-				Err(p) => p.into_inner(),
-			};
-			g = ng;
-			if to.timed_out() {
-				waited += 1;
-				if waited >= 20 {
-					return false;
+		}
+		g.last = Some(tid);
+		let p = g.threads[tid].pending.take().unwrap();
+		let mut res = true;
+		match &p {
+			Pending::Raw(op) => {
+				res = g.apply(tid, *op);
+				let o = mix(g.threads[tid].obs, (op.lock as u64) << 16 | (op.act as u64) << 8 | (op.mode as u64) << 4 | res as u64);
+				g.threads[tid].obs = o;
+			}
+			Pending::Menu(_) => {
+				let o = mix(g.threads[tid].obs, 0xabc000 | choice as u64);
+				g.threads[tid].obs = o;
+			}
+			_ => {}
+		}
+		g.threads[tid].result = res;
+		g.threads[tid].chosen = choice;
+		g.threads[tid].status = Status::Running;
+		g.threads[tid].points += 1;
+		g.turn = Some(tid);
+	}
+
+	/// Run the decider if the execution is quiescent; wake whoever is chosen (or everyone on stop).
+	fn schedule(&self, g: &mut Inner) {
+		if g.abort || !Self::quiescent(g) {
+			return;
+		}
+		let Some(mut d) = g.decider.take() else {
+			g.abort = true;
+			self.wake_all();
+			return;
+		};
+		let dec = d(g);
+		g.decider = Some(d);
+		match dec {
+			Decision::Run(t, c) => {
+				Self::grant(g, t, c);
+				if g.abort {
+					self.wake_all();
+				} else {
+					self.cv_thr[t].notify_one();
 				}
+			}
+			Decision::Stop => {
+				g.abort = true;
+				self.wake_all();
 			}
 		}
 	}
 
-	pub fn enabled(&self) -> Vec<usize> {
-		let g = self.lock();
-		(0..g.nthreads).filter(|t| g.thread_enabled(*t)).collect()
-	}
-
-	/// Let thread `tid` perform its pending point and run to its next point. `choice` selects a menu action.
-	pub fn step(&self, tid: usize, choice: u16) -> bool {
-		{
-			let mut g = self.lock();
-			if !g.thread_enabled(tid) {
-				g.machinery_error = Some(format!("step of disabled thread T{}", tid));
-				return false;
-			}
-			if let Some(l) = g.last {
-				if l != tid && g.thread_enabled(l) {
-					g.preemptions += 1;
-				}
-			}
-			g.last = Some(tid);
-			let p = g.threads[tid].pending.take().unwrap();
-			let mut res = true;
-			match &p {
-				Pending::Raw(op) => {
-					res = g.apply(tid, *op);
-					let o = mix(g.threads[tid].obs, (op.lock as u64) << 16 | (op.act as u64) << 8 | (op.mode as u64) << 4 | res as u64);
-					g.threads[tid].obs = o;
-				}
-				Pending::Menu(_) => {
-					let o = mix(g.threads[tid].obs, 0xabc000 | choice as u64);
-					g.threads[tid].obs = o;
-				}
-				_ => {}
-			}
-			g.threads[tid].result = res;
-			g.threads[tid].chosen = choice;
-			g.threads[tid].status = Status::Running;
-			g.threads[tid].points += 1;
-			g.turn = Some(tid);
-			self.cv.notify_all();
+	fn wake_all(&self) {
+		for c in &self.cv_thr {
+			c.notify_all();
 		}
-		self.wait_quiescent()
 	}
 
 	pub fn abort(&self) {
 		let mut g = self.lock();
 		g.abort = true;
-		self.cv.notify_all();
+		self.wake_all();
 	}
 
 	// ---------------- thread side ----------------
@@ -598,7 +623,7 @@ impl Exec {
 		if g.turn == Some(tid) {
 			g.turn = None;
 		}
-		self.cv.notify_all();
+		self.schedule(&mut g);
 		loop {
 			if g.abort {
 				drop(g);
@@ -607,7 +632,7 @@ impl Exec {
 			if g.turn == Some(tid) && g.threads[tid].status == Status::Running {
 				return (g.threads[tid].result, g.threads[tid].chosen);
 			}
-			g = match self.cv.wait(g) {
+			g = match self.cv_thr[tid].wait(g) {
 				Ok(x) => x,
 				Err(p) => p.into_inner(),
 			};
@@ -622,7 +647,87 @@ impl Exec {
 		if g.turn == Some(tid) {
 			g.turn = None;
 		}
-		self.cv.notify_all();
+		self.schedule(&mut g);
+	}
+}
+
+// ---------------------------------------------------------------------------------
+// Thread pool: logical threads run on pooled OS threads (fresh thread-locals are
+// re-established by checking that the thread's key is obtainable between jobs)
+// ---------------------------------------------------------------------------------
+
+type Job = Box<dyn FnOnce() + Send + 'static>;
+
+struct PoolThread {
+	tx: std::sync::mpsc::Sender<Job>,
+	done: std::sync::mpsc::Receiver<bool>,
+}
+
+pub struct Pool {
+	threads: Vec<Option<PoolThread>>,
+	pub respawned: u64,
+}
+
+fn spawn_pool_thread() -> PoolThread {
+	let (tx, rx) = std::sync::mpsc::channel::<Job>();
+	let (dtx, drx) = std::sync::mpsc::channel::<bool>();
+	std::thread::Builder::new()
+		.stack_size(512 * 1024)
+		.spawn(move || {
+			while let Ok(job) = rx.recv() {
+				let _ = catch_unwind(AssertUnwindSafe(job));
+				// key hygiene: the thread-local key must be obtainable, else this OS thread is retired
+				let clean = match happylock::ThreadKey::get() {
+					Some(k) => {
+						drop(k);
+						true
+					}
+					None => false,
+				};
+				if dtx.send(clean).is_err() || !clean {
+					break;
+				}
+			}
+		})
+		.expect("spawn pool thread");
+	PoolThread { tx, done: drx }
+}
+
+impl Pool {
+	pub fn new() -> Self {
+		Pool { threads: vec![], respawned: 0 }
+	}
+	/// Run the jobs on distinct OS threads and wait for all of them. Returns false on watchdog timeout.
+	pub fn run<'a>(&mut self, jobs: Vec<Box<dyn FnOnce() + Send + 'a>>, timeout: Duration) -> bool {
+		let n = jobs.len();
+		while self.threads.len() < n {
+			self.threads.push(None);
+		}
+		for (i, j) in jobs.into_iter().enumerate() {
+			if self.threads[i].is_none() {
+				self.threads[i] = Some(spawn_pool_thread());
+			}
+			let j: Job = unsafe { std::mem::transmute(j) };
+			if self.threads[i].as_ref().unwrap().tx.send(j).is_err() {
+				eprintln!("machinery: pool thread died");
+				std::process::exit(2);
+			}
+		}
+		let mut ok = true;
+		for i in 0..n {
+			match self.threads[i].as_ref().unwrap().done.recv_timeout(timeout) {
+				Ok(true) => {}
+				Ok(false) => {
+					self.threads[i] = None;
+					self.respawned += 1;
+				}
+				Err(_) => {
+					// a logical thread never came back: cannot safely continue in this process
+					ok = false;
+				}
+			}
+		}
+		ok
 	}
 }
 
